@@ -1132,7 +1132,7 @@ int main(int argc, char **argv)
     Sink sink(a);
     long total;
     if (a.prop == "C02")
-        total = a.thorough() ? 12000 : 6000;
+        total = a.thorough() ? 16000 : 6000;
     else
     {
         fprintf(stderr, "h_control does not serve %s\n", a.prop.c_str());
